@@ -220,6 +220,57 @@ def gen_requests(tier, rng, kinds=KINDS, endpoints=None, n_random=None, avoid_cr
                          ["s" + ch + "c"] if ch != " " else ["sc"], [("k" + ch, ch + "v")])
             if l:
                 out.append((l, "single-character/" + kind))
+    # literals that are new in the source (gen/srclit.py): each new word in every role a caller string can play (extra
+    # name, extra value, scope, client id, secret, the kind's own arguments, type hint, redirect path), bare and embedded;
+    # each new integer (and its neighbours) as the length of each of those strings and as the number of scopes / extras
+    from gen import srclit as S
+    for w in S.words():
+        for form in dict.fromkeys([w, w.lower(), w.upper(), " " + w, w + "\n", "x" + w, w + "=1", w + " " + w]):
+            for ki, kind in enumerate(kinds):
+                eps = endpoints or (REVOKE_ENDPOINTS if kind == "revoke" else eps_default)
+                for auth in ("B", "R"):
+                    for secret in ("bbb", None):
+                        if form != w and (secret is None or auth == "R") and (ki + len(form)) % 2:
+                            continue
+                        i += 1
+                        roles = [
+                            dict(extras=[(form, "v")]), dict(extras=[("k", form)]), dict(extras=[(form, form), (form, "second")]), dict(scopes=[form]),
+                            dict(scopes=["a", form, "b"]), dict(cid=form), dict(secret=form if secret else None), dict(arg=form), dict(defred="https://client/" + "".join(c for c in form if c.isalnum() or c in "_-")),
+                        ]
+                        for role in roles:
+                            if "secret" in role and role["secret"] is None:
+                                continue
+                            if avoid_cred_extras and any(k in ("client_id", "client_secret") for k, _ in role.get("extras", [])):
+                                continue
+                            a1, a2, a3 = kind_args(kind, rng, [role.get("arg", "val")])
+                            l = req_line(variants[i % 2], kind, auth, role.get("cid", "aaa"), role.get("secret", secret), eps[0], role.get("defred"), a1, a2, a3,
+                                         role.get("scopes", SCOPES[i % 3]), role.get("extras", []))
+                            if l:
+                                out.append((l, "source-literal/word/" + kind))
+    for n in S.sizes(limit=200000, lo=0):
+        for ki, kind in enumerate(kinds):
+            eps = endpoints or (REVOKE_ENDPOINTS if kind == "revoke" else eps_default)
+            for auth in ("B", "R"):
+                for fill in ("a", "\u00e9", "%"):
+                    val = (fill * n)[:n] if len(fill.encode()) == 1 else fill * (n // 2)
+                    roles = [dict(cid=val), dict(secret=val), dict(arg=val), dict(scopes=[val]), dict(extras=[("k", val)]), dict(extras=[(val or "k", "v")]), dict(cid=val[: n // 2], secret=val[n // 2:] or "s")]
+                    if n <= 600:
+                        roles += [dict(scopes=["s%d" % j for j in range(n)]), dict(extras=[("k%d" % j, "v") for j in range(n)]), dict(extras=[("k", "v")] * n)]
+                    for role in roles:
+                        i += 1
+                        a1, a2, a3 = kind_args(kind, rng, [role.get("arg", "val")])
+                        l = req_line(variants[i % 2], kind, auth, role.get("cid", "aaa"), role.get("secret", "bbb"), eps[0], None, a1, a2, a3,
+                                     role.get("scopes", []), role.get("extras", []))
+                        if l:
+                            out.append((l, "source-literal/length/" + kind))
+        # an endpoint URL of exactly n bytes
+        if 30 <= n:
+            for kind in kinds:
+                base = "https://r.example/revoke?x=" if kind == "revoke" else "https://example.com/token?x="
+                a1, a2, a3 = kind_args(kind, rng, ["val"])
+                l = req_line(variants[n % 2], kind, "B", "aaa", "bbb", base + "a" * (n - len(base)), None, a1, a2, a3, [], [])
+                if l:
+                    out.append((l, "source-literal/endpoint-length/" + kind))
     # random heavy strings
     n = n_random if n_random is not None else (2500 if tier == "quick" else 120000)
     for _ in range(n):
@@ -321,6 +372,38 @@ def gen_authurls(tier, rng):
                 l = authurl_line(url, "aaa", defred, "csrf_token", ops)
                 if l:
                     out.append((l, "product"))
+    from gen import srclit as S
+    for w in S.words():
+        for form in dict.fromkeys([w, w.lower(), w.upper(), " " + w, w + "\n", "x" + w, w + "=1", w + " " + w]):
+            for ui, url in enumerate(AUTH_ENDPOINTS[:4] + ["https://example.com/auth?%s=old" % "".join(c for c in form if c.isalnum() or c in "_-")]):
+                for opsl in ([["E:%s:%s" % (C.tb(form), C.tb("v"))], ["E:%s:%s" % (C.tb("k"), C.tb(form))], ["E:%s:%s" % (C.tb(form), C.tb("1")), "E:%s:%s" % (C.tb(form), C.tb("2"))],
+                              ["S:" + C.tb(form)], ["S:" + C.tb("a"), "SS:" + C.tlist([form, "b"])], ["R:" + C.tb(form)], ["R:" + C.tb("code " + form)],
+                              ["U:" + C.tb("https://client/" + "".join(c for c in form if c.isalnum() or c in "_-"))], ["P:" + C.tb(VERIFIERS[0]), "E:%s:%s" % (C.tb(form), C.tb("v"))], ["I", "S:" + C.tb(form)]]):
+                    l = authurl_line(url, "aaa", None if ui % 2 else "https://client/cb", "csrf", opsl)
+                    if l:
+                        out.append((l, "source-literal/word"))
+                for (cid, st) in ((form, "csrf"), ("aaa", form)):
+                    l = authurl_line(url, cid, None, st, [])
+                    if l:
+                        out.append((l, "source-literal/word"))
+    for n in S.sizes(limit=200000, lo=0):
+        for fill in ("a", "\u00e9", "%"):
+            val = (fill * n)[:n] if len(fill.encode()) == 1 else fill * (n // 2)
+            variantsl = [("aaa", "csrf", ["S:" + C.tb(val)]), (val, "csrf", []), ("aaa", val, []), ("aaa", "csrf", ["E:%s:%s" % (C.tb("k"), C.tb(val))]), ("aaa", "csrf", ["R:" + C.tb(val)]),
+                         ("aaa", "csrf", ["E:%s:%s" % (C.tb(val or "k"), C.tb("v"))])]
+            if n <= 600:
+                variantsl += [("aaa", "csrf", ["S:" + C.tb("s%d" % j) for j in range(n)]), ("aaa", "csrf", ["SS:" + C.tlist(["s%d" % j for j in range(n)])] if n else ["SS:."]),
+                              ("aaa", "csrf", ["E:%s:%s" % (C.tb("k%d" % j), C.tb("v")) for j in range(n)])]
+            for cid, st, opsl in variantsl:
+                l = authurl_line(AUTH_ENDPOINTS[n % 3], cid, None, st, opsl)
+                if l:
+                    out.append((l, "source-literal/length"))
+        if n >= 40:
+            base = "https://example.com/auth?x="
+            for opsl in ([], ["S:" + C.tb("read")]):
+                l = authurl_line(base + "a" * (n - len(base)), "aaa", "https://client/cb", "csrf", opsl)
+                if l:
+                    out.append((l, "source-literal/endpoint-length"))
     n = 2500 if tier == "quick" else 150000
     for _ in range(n):
         l = authurl_line(rng.choice(AUTH_ENDPOINTS), rng.choice(IDS + STRINGS), rng.choice(REDIRECTS),
